@@ -68,6 +68,21 @@ CHECKS = {
              'inputs, Z-only differences, wrapper inputs spanning more than 180 degrees of longitude, generated outlines of curved members.',
         technique='Lean 4 proof (stack invariant, reflection, junction lemmas, shoelace telescoping, gift-wrapping uniqueness) + exhaustive/random differential correspondence through convex_hull and all five wrappers + independent exact oracle',
         design='§6 C10'),
+    'C14': dict(
+        text='Lean 4 theorems over a hand-written model of to_geojson / from_geojson / parse_geojson / collection import-export, for every '
+             'shape kind, every k, all documents: export->import returns the polygon form with the same time bounds and properties '
+             '(roundtrip, collection_roundtrip, track_roundtrip); importing never changes the caller document, twice gives the same result, '
+             'a later set_property is isolated (import_pure, import_twice_equal, later_mutation_isolated, with a proved counter-witness for '
+             'the pre-fix code); exported rings are closed, exterior counter-clockwise and holes clockwise for vertex-defined shapes, '
+             'positions are [lon, lat(, z)] with Z = 0 kept, the result is JSON-native, time bounds and user properties sit under '
+             'properties and the caller override wins; dispatch and ValueError on wrong/missing geometry. Tied to the code by 16 '
+             'differential streams (exhaustive small worlds + seeded random) on canonical exact JSON.',
+        note='Trusted: Lean kernel + Mathlib; datetime.isoformat/fromisoformat and str.upper enter as the explicit, proved-consistent assumption '
+             'Rt.Lawful; json.dumps/loads exercised, not modelled; curved outlines enter as the vertex lists the implementation draws (C03) - '
+             'their closure/orientation is judged exactly on the emitted floats, not proved; rings crossing the antimeridian and M values '
+             'are outside; zero-area holes are the stated excluded class; the multi-polygon round trip is proved for non-GeoRing members.',
+        technique='Lean 4 proof (export/import model with the document-after-the-call explicit; dict algebra, shoelace identity, induction over members) + differential correspondence + independent RFC 7946 / == oracles',
+        design='§6 C14'),
     'C06': dict(
         text='Lean 4 theorems: every TimeInterval operator of the model equals the dense-time set model '
              '[start,end) / {start} for all intervals and instants (membership, subset, superset, disjoint, '
